@@ -309,6 +309,13 @@ template <int A, typename U, typename = std::enable_if_t<std::is_floating_point<
 inline S<MaxF(A, FmtOf<U>::value)> pow(const S<A>& x, const U y) {
   return pow(x, S<FmtOf<U>::value>(y));
 }
+// std::pow(arithmetic, traced): an integer base is converted to double ([c.math]), a floating base keeps
+// its format; the result has the wider of the two formats.
+template <typename U, int B, typename = std::enable_if_t<std::is_arithmetic<U>::value>>
+inline S<MaxF(B, FmtOf<U>::value == 0 ? 64 : FmtOf<U>::value)> pow(const U x, const S<B>& y) {
+  constexpr int XF = FmtOf<U>::value == 0 ? 64 : FmtOf<U>::value;
+  return pow(S<XF>(static_cast<typename S<XF>::N>(x)), y);
+}
 
 template <int A> inline bool isnan(const S<A>& x) { G().events.push_back("escape:isnan"); return std::isnan(x.v); }
 template <int A> inline bool isfinite(const S<A>& x) { G().events.push_back("escape:isfinite"); return std::isfinite(x.v); }
